@@ -6,6 +6,7 @@ require (
 	github.com/cbergoon/merkletree v0.2.0
 	github.com/coreos/etcd v3.3.18+incompatible
 	github.com/ethereum/go-ethereum v1.10.8
+	github.com/iancoleman/orderedmap v0.2.0
 	github.com/libp2p/go-libp2p-core v0.5.6
 	github.com/meshplus/bitxhub v0.0.0
 	github.com/meshplus/bitxhub-core v1.28.1-0.20230411032641-11245b4adfc5
